@@ -321,8 +321,14 @@ func (l *PartitionLog) Flush(ctx context.Context) error {
 	if l.onFlush != nil {
 		target := artifact
 		if target == nil {
+			// Nothing to flush here, but another producer may have appended (and
+			// even started uploading) past the last committed segment. Publish
+			// only what is durable: the end of the last committed segment.
 			l.mu.Lock()
-			current := l.nextOffset - 1
+			current := int64(-1)
+			if n := len(l.segments); n > 0 {
+				current = l.segments[n-1].lastOffset
+			}
 			l.mu.Unlock()
 			if current >= 0 {
 				target = &SegmentArtifact{LastOffset: current}
